@@ -213,13 +213,6 @@ impl J {
     fn usize(&self, k: &str) -> usize {
         self.u64(k) as usize
     }
-    fn i64(&self, k: &str) -> i64 {
-        match self.get(k) {
-            J::Num(n) => i64::try_from(*n).unwrap_or_else(|_| panic!("driver: {} out of i64 range", k)),
-            J::Null => 0,
-            _ => panic!("driver: field {} is not a number", k),
-        }
-    }
     fn bool(&self, k: &str) -> bool {
         matches!(self.get(k), J::Bool(true))
     }
@@ -867,7 +860,7 @@ fn tree_cv(c: &TreeCtx, t: &J) -> [u8; 32] {
 fn crate_left_len(len: usize) -> usize {
     let l = hazmat::left_subtree_len(len as u64);
     if l == 0 || l >= len as u64 || l % 1024 != 0 {
-        panic!("driver: hazmat::left_subtree_len({}) returned {} which cannot split the input", len, l);
+        panic!("observed: hazmat::left_subtree_len({}) returned {} which cannot split the input", len, l);
     }
     l as usize
 }
